@@ -37,7 +37,7 @@ def jobs(tier, seed):
         for cd in (False, True):
             out.append(('si4-call-site.%struncated.len=%d' % ('chan-desc.' if cd else '', L), 'c_si4', dict(length=L, chan_desc=cd, cut=1)))
     # downstream consumer of the hopping list: the SETFH command trxcon composes from it (shared with C05)
-    for band, n in ((900, 64), (1800, 8), (1900, 8), (850, 8)):
+    for band, n in ((900, 64), (1800, 8), (1900, 8), (850, 8), (1800, 63), (1800, 64), (1900, 64)):
         out.append(('trxcon.composes.SETFH.band%d.n=%d' % (band, n), 'c_setfh_compose', dict(band=band, n=n)))
     out.append(('validation', 'c_validate', dict(seed=seed)))
     return out
